@@ -179,6 +179,8 @@ func (w *dynCompressor) Reset(under io.Writer) {
 
 	w.idx = 0
 	w.end = 0
+	// tokens of an abandoned or failed stream must not reach the next one
+	w.tokens = w.tokens[:0]
 
 	w.buf.reset()
 	w.lz77.reset()
